@@ -20,13 +20,15 @@ def main():
             return 2
 
         def one(pid):
-            env = dict(os.environ, NIXSA_REPO=tmp, NIXSA_EVIDENCE_DIR=os.path.join(tmp, "ev-" + pid), PYTHONDONTWRITEBYTECODE="1")
+            env = dict(os.environ, NIXSA_REPO=tmp, NIXSA_EVIDENCE_DIR=os.path.join(tmp, "ev-" + pid), PYTHONDONTWRITEBYTECODE="1",
+                       NIXSA_CACHE_DIR=os.path.join(tmp, "cache"))
             p = subprocess.run([os.path.join(VERIF, "check"), pid], cwd=VERIF, env=env, capture_output=True, text=True)
             lines = [l[:300] for l in (p.stdout + p.stderr).splitlines() if l.startswith(pid + ".") or "ANALYSIS-ERROR" in l or l.startswith("Traceback")]
             return pid, p.returncode, lines[:4]
 
+        first = [one("C11" if "C11" in ids else ids[0])]      # fills the scratch copy's call-graph cache for the others
         with ThreadPoolExecutor(int(os.environ.get("JOBS", "10"))) as ex:
-            res = list(ex.map(one, ids))
+            res = first + list(ex.map(one, [i for i in ids if i != first[0][0]]))
         alarms = {pid: {"exit": rc, "messages": msgs} for pid, rc, msgs in res if rc != 0}
         meta = {"kind": "benign", "silent": [pid for pid, rc, _ in res if rc == 0], "alarms": alarms}
         mp = os.path.join(d, "meta.json")
